@@ -1,5 +1,6 @@
 pub mod api;
 pub mod closest;
+pub mod codec;
 pub mod hash;
 pub mod id;
 pub mod rtable;
